@@ -1,5 +1,6 @@
 import Pyc.Proofs.Fee
 import Pyc.Model.Cbor
+import Pyc.Model.FeeLoop
 
 /-! # C07 — the fee functions equal the ledger formula in exact rational arithmetic; fee ≥ ledger minimum
 
@@ -132,6 +133,58 @@ def exParams : FeeParams :=
 example : tierFee exParams 60000 = some 1034880 ∧ fee exParams 300 1000000 5000 60000 = some 1203823 := by
   decide +kernel
 
+/-! ## the builder's final fee loop -/
+open Pyc.FeeLoop in
+/-- post-condition: when the loop ends, the fee covers the estimate of the transaction it is part of, and it never
+went down -/
+theorem fee_loop_post (est : ℤ → ℤ) (fuel : ℕ) (f f' : ℤ) (h : loop est fuel f = some f') : est f' ≤ f' ∧ f ≤ f' := by
+  induction fuel generalizing f with
+  | zero => simp [loop] at h
+  | succ n ih =>
+    simp only [loop] at h
+    split at h
+    · cases h; exact ⟨by assumption, le_refl _⟩
+    · rename_i hlt
+      obtain ⟨h1, h2⟩ := ih _ h
+      exact ⟨h1, by omega⟩
+
+open Pyc.FeeLoop in
+/-- termination: every estimate is bounded by the maximum fee `M` (plus buffer), each pass raises the fee strictly, so
+`M − f + 1` passes suffice -/
+theorem fee_loop_terminates (est : ℤ → ℤ) (M : ℤ) (hM : ∀ f, est f ≤ M) (f : ℤ) :
+    ∃ f', loop est ((M - f).toNat + 1) f = some f' := by
+  have key : ∀ (n : ℕ) (f : ℤ), (M - f).toNat ≤ n → ∃ f', loop est (n + 1) f = some f' := by
+    intro n
+    induction n with
+    | zero =>
+      intro f hn
+      refine ⟨f, ?_⟩
+      have : est f ≤ f := by have := hM f; omega
+      simp [loop, this]
+    | succ n ih =>
+      intro f hn
+      simp only [loop]
+      split
+      · exact ⟨f, rfl⟩
+      · rename_i hlt
+        have h1 := hM f
+        exact ih (est f) (by omega)
+  exact key _ f (le_refl _)
+
+open Pyc.FeeLoop in
+/-- **sufficiency of the fee the loop leaves**: if for every fee value the estimate (taken on the fully populated
+fake transaction: placeholder witnesses of the size of real ones) is at least the ledger's minimum fee of the final
+signed transaction carrying that fee, then the fee in the body is at least the ledger's minimum fee -/
+theorem fee_loop_sufficient (est minFee : ℤ → ℤ) (hest : ∀ f, minFee f ≤ est f) (fuel : ℕ) (f f' : ℤ)
+    (h : loop est fuel f = some f') : minFee f' ≤ f' := by
+  have := (fee_loop_post est fuel f f' h).1
+  have := hest f'
+  omega
+
+/-- non-vacuity: an estimator whose result depends on the CBOR width of the fee (the situation of the repaired defect:
+fee 283 priced with a 2-byte … the loop moves from 250 to 259 and stops) -/
+example : Pyc.FeeLoop.loop (fun f => 255 + (if f < 256 then 3 else 4)) 5 250 = some 259 := by decide
+
 end Pyc.C07
 
 #print axioms Pyc.C07.fee_eq_formula
@@ -142,3 +195,6 @@ end Pyc.C07
 #print axioms Pyc.C07.fee_vs_ledger
 #print axioms Pyc.C07.fee_mono_size
 #print axioms Pyc.C07.head_len_mono
+#print axioms Pyc.C07.fee_loop_post
+#print axioms Pyc.C07.fee_loop_terminates
+#print axioms Pyc.C07.fee_loop_sufficient
